@@ -328,6 +328,19 @@ def run_case(i, rng, rec, tier, state):
         rec.cls("q-form:int")
         _call(rec, s, qi.astype(np.int64), name, info)
         _call(rec, s, qi[:2].astype(np.int32), name, info)
+    # the same wave vectors in other memory layouts (Fortran order, strided views, read-only) and as nested lists: the
+    # postcondition judges each call against the transform; the answers must agree with the batch and the argument must stay
+    if F is not None and F.shape == (len(q),):
+        sub = np.sort(rng.choice(len(q), size=min(5, len(q)), replace=False))
+        for lab, arr in points.layouts(q[sub]) + [("nested-lists", [[float(x) for x in row] for row in q[sub]])]:
+            rec.cls("q-layout:" + lab)
+            keep = np.array(arr, dtype=float, copy=True)
+            fl = _call(rec, s, arr, name, info)
+            if fl is None:
+                continue
+            okl = fl.shape == (len(sub),) and all(abs(fl[t] - F[j]) <= 2 * tol_of(measure, q[j], L, relkw.get("d"), relkw.get("dim", 3)) for t, j in enumerate(sub))
+            rec.check("batch-vs-single", bool(okl), name + f".form_factor/answer-depends-on-memory-layout:{lab}", lambda: dict(info, layout=lab))
+            rec.check("batch-vs-single", np.array_equal(np.asarray(arr, float), keep), name + f".form_factor/modifies-argument:{lab}", lambda: dict(info, layout=lab))
     rho = float(rng.choice([0.5, 2.0, -1.5, 3.25]))
     rec.cls("density!=1")
     _call(rec, s, q[:5].copy(), name, info, density=rho)
